@@ -67,14 +67,18 @@ W_MODES = set('wxa+')
 
 
 def is_big(ck: Ck) -> bool:
-    """Thorough budgets: thorough tier or a broken tie."""
-    return ck.thorough or bool(ck.tie_broken)
+    """Thorough budgets: the thorough tier, or a broken tie for which no failing input has been found yet (the budgets
+    are escalated in order to find one; once the search has a concrete violation the remaining stages run with the
+    `escalated` budgets: a mutated tree took 530-550 s in the quick tier, most of it in the full BSP.save and
+    two-writer matrices after the replays were already written)."""
+    return ck.thorough or (bool(ck.tie_broken) and not ck.violations)
 
 
 def escalated(ck: Ck) -> bool:
-    """Also true when the AST digest of AtomicWriter is not one the model was written against (DESIGN 5.4): more random
-    scenarios and every BSP.save kill/fault point, but not the full thorough matrix."""
-    return is_big(ck) or bool(ck.extra.get('escalated_by_digest'))
+    """Also true when the AST digest of AtomicWriter is not one the model was written against (DESIGN 5.4) or a tie is
+    broken: more random scenarios, more histories, three times the sample of BSP.save kill points, but not the full
+    thorough matrix."""
+    return is_big(ck) or bool(ck.tie_broken) or bool(ck.extra.get('escalated_by_digest'))
 
 
 def budget(ck: Ck, quick: int, thorough: int) -> int:
@@ -104,6 +108,11 @@ class FsSim:
         self.phase: dict[int, tuple[str, bool]] = {}
         self.lock = threading.Lock()
         self.use_idx = 0          # which `with` block of a reuse history is running
+        self.snaps: list[tuple[int, str, bool, dict, type]] | None = None     # instance attributes of the writer object
+
+    def snap(self, tag: str, obj: Any, exc: bool = False) -> None:
+        if self.snaps is not None:
+            self.snaps.append((self.use_idx, tag, exc, dict(vars(obj)), type(obj)))
 
     # -- helpers
     def wid(self) -> int:
@@ -268,8 +277,13 @@ def make_spy_class(sim: FsSim):
     class AWSpy(srctools.AtomicWriter):       # phase markers only; all behaviour is the real class's
         def __enter__(self):
             sim.set_phase('enter')
-            f = super().__enter__()
+            try:
+                f = super().__enter__()
+            except BaseException:
+                sim.snap('entry-failed', self)
+                raise
             sim.set_phase('body')
+            sim.snap('mid', self)
             return f
 
         def __exit__(self, et, ev, tb):
@@ -278,6 +292,7 @@ def make_spy_class(sim: FsSim):
                 return super().__exit__(et, ev, tb)
             finally:
                 sim.set_phase('done')
+                sim.snap('after', self, et is not None)
     return AWSpy
 
 
@@ -977,6 +992,8 @@ def run_history(hs: dict, root: str, fault_at: Any = None, crash_at: int | None 
     with sim:
         AWSpy = make_spy_class(sim)
         aw = AWSpy(dest, is_bytes=not hs.get('text'), **({'encoding': hs['encoding']} if hs.get('text') else {}))
+        sim.snaps = []
+        sim.snap('init', aw)
         for u, use in enumerate(hs['uses']):
             sim.use_idx = u
             sim.set_phase('pre')
@@ -992,7 +1009,7 @@ def run_history(hs: dict, root: str, fault_at: Any = None, crash_at: int | None 
                 outcome = f'other:{type(e).__name__}:{e}'
             outcomes.append(outcome)
             listings.append(listing(root))
-    return dict(ops=sim.ops, outcomes=outcomes, listings=listings)
+    return dict(ops=sim.ops, outcomes=outcomes, listings=listings, snaps=sim.snaps, dest=dest)
 
 
 def run_history_crash(hs: dict, root: str, k: int) -> tuple[int, dict[str, bytes]]:
@@ -1056,6 +1073,68 @@ def hist_replay_obj(mode: str, hs: dict, k: Any) -> dict:
                    'letter of `word`: S = body returns, B = body raises) with the same OSError / kill point k'}
 
 
+_MISSING = object()
+
+
+def abs_attr(v: Any, dest: str) -> str | None:
+    """A real attribute value -> the abstract value of SM/AtomicExit.v (None: outside xval / unbound)."""
+    if v is None:
+        return 'VNone'
+    if v is True or v is False:
+        return 'VTrue' if v else 'VFalse'
+    if isinstance(v, io.IOBase):
+        return 'VTemp'
+    if isinstance(v, BaseException) or (isinstance(v, type) and issubclass(v, BaseException)):
+        return 'VExc'
+    if isinstance(v, (str, os.PathLike)):
+        p = os.fspath(v)
+        if os.path.abspath(p) == os.path.abspath(dest):
+            return 'VDest'
+        if os.path.dirname(os.path.abspath(p)) == os.path.dirname(os.path.abspath(dest)) \
+                and NameMap.tmp_index(os.path.basename(p)) is not None:
+            return 'VTName'
+    return None
+
+
+def abs_state(snap: tuple, names: list[str], dest: str) -> list[str | None]:
+    _u, _tag, _exc, d, cls = snap
+    return [abs_attr(d.get(n.removeprefix('self.'), getattr(cls, n.removeprefix('self.'), _MISSING)), dest) for n in names]
+
+
+def coq_astate(a: list[str | None]) -> str:
+    return coq_list('None' if v is None else f'(Some {v})' for v in a)
+
+
+def attr_case(r: dict, per_use: list[dict], names: list[str]) -> tuple[str, list[dict]] | None:
+    """The instance attributes of the real object after __init__, inside every body and after every __exit__ of one
+    executed history -> the arguments of corr_attrs (SM/AtomicReuse.v) + what each row stands for."""
+    snaps, dest = r.get('snaps') or [], r['dest']
+    init = [sn for sn in snaps if sn[1] == 'init']
+    if len(init) != 1:
+        return None
+    cur = abs_state(init[0], names, dest)
+    init_abs = cur
+    rows, info = [], []
+    for u, pu in enumerate(per_use):
+        mid = [sn for sn in snaps if sn[0] == u and sn[1] == 'mid']
+        aft = [sn for sn in snaps if sn[0] == u and sn[1] == 'after']
+        if not mid or not aft:
+            # the entry failed (no __exit__ is run): the model does not say what the attributes hold then, the next use
+            # simply starts from what the real object holds (c12_reuse_history quantifies over every such state)
+            failed = [sn for sn in snaps if sn[0] == u and sn[1] == 'entry-failed']
+            if not failed:
+                break
+            cur = abs_state(failed[0], names, dest)
+            continue
+        oracle = [{0: 0, 3: 1, 2: 2}.get(e[3], 1) for e in pu['events'] if e[0] in (3, 4, 5)]
+        m, a = abs_state(mid[0], names, dest), abs_state(aft[0], names, dest)
+        rows.append(f'({coq_astate(cur)}, {"true" if aft[0][2] else "false"}, {coq_list(map(str, oracle))}, '
+                    f'{coq_astate(m)}, {coq_astate(a)})')
+        info.append(dict(use=u + 1, before=cur, body_raised=aft[0][2], exit_call_results=oracle, inside_body=m, after=a))
+        cur = a
+    return f'corr_attrs aw_obj {coq_astate(init_abs)} {coq_list(rows)}', [dict(after_init=init_abs)] + info
+
+
 def _prev_class(word: str, outcomes: list[str], u: int) -> str:
     if u == 0:
         return 'first-use'
@@ -1098,6 +1177,7 @@ def history_campaign(ck: Ck, do_model: bool) -> None:
             else:
                 scens.append(coq_scen(0, bodyt, [16 * u + j + 1 for j, o in enumerate(wr) if o['phase'] == 'exit'], None))
         nm = NameMap(hs)
+        obj_names = list((ck.extra.get('translated', {}).get('AtomicWriter_gen', {}).get('obj') or {}).get('names', []))
 
         def judge(r: dict, fault: Any, how: str) -> None:
             """Oracle on every use of one executed history + one model case for the whole history."""
@@ -1161,7 +1241,7 @@ def history_campaign(ck: Ck, do_model: bool) -> None:
                               + [NameMap.tmp_index(b) or 0 for b in nm.init] + [1]) + 1
                 uses = coq_list(f'({scens[u]}, {pu["cut"]}, {coq_list(map(str, pu["faults"]))})' for u, pu in enumerate(per_use))
                 cases.append(dict(coq=f'corr_hist aw_obj {uses} (dir_of {nm.coq_init()}) {coq_list(nm.probe_names(max_tmp))}',
-                                  uses=per_use, nm=nm, wmap=wall, max_tmp=max_tmp,
+                                  uses=per_use, nm=nm, wmap=wall, max_tmp=max_tmp, attrs=attr_case(r, per_use, obj_names),
                                   what={'run': how, 'history': hs['kind'], 'fault': repr(fault)}))
 
         judge(base, None, 'fault-free history')
@@ -1215,16 +1295,29 @@ def history_campaign(ck: Ck, do_model: bool) -> None:
 
 def eval_hist_cases(ck: Ck, cases: list[dict]) -> None:
     bad: list[dict] = []
-    n = 0
-    for lo in range(0, len(cases), 150):
-        part = cases[lo:lo + 150]
-        vals = ck.coq_eval(IMPORTS, [coq_list(c['coq'] for c in part)], name='aw_history', preamble=PRE)
+    abad: list[dict] = []
+    n = na = 0
+    for lo in range(0, len(cases), 250):
+        part = cases[lo:lo + 250]
+        vals = ck.coq_eval(IMPORTS, [coq_list(c['coq'] for c in part),
+                                     coq_list((c['attrs'][0] if c['attrs'] else '[]') for c in part)],
+                           name='aw_history', preamble=PRE)
         if vals is None:
             ck.obligation('correspondence:history', False, 'model could not be evaluated')
             ck.tie_broken.append('correspondence AtomicWriter (history): model evaluation failed')
             return
         res = parse_coq_nested(vals[0])
         assert len(res) == len(part), (len(res), len(part))
+        for c, arows in zip(part, parse_coq_nested(vals[1])):
+            if not c['attrs']:
+                abad.append({'what': c['what'], 'why': 'no snapshot of the instance attributes after __init__'})
+                continue
+            for row, info in zip(arows, c['attrs'][1]):
+                na += 1
+                ck.count('model_cases_history_attributes')
+                if not all(row):
+                    abad.append({'what': c['what'], 'row': info,
+                                 'agrees': dict(zip(['after __init__'] if 'after_init' in info else ['inside the body', 'after __exit__'], row))})
         for c, rows in zip(part, res):
             nm: NameMap = c['nm']
             diffs: list[dict] = []
@@ -1257,6 +1350,15 @@ def eval_hist_cases(ck: Ck, cases: list[dict]) -> None:
     if bad:
         ck.tie_broken.append('correspondence AtomicWriter (history): real trace/directory differs from the model')
         ck.extra['history_disagreements'] = bad[:5]
+    ck.obligation('correspondence:history-attributes', not abad,
+                  f'{na} snapshots of the instance attributes of the real object (after __init__, inside the body and after '
+                  f'__exit__ of every use of {len(cases)} executed histories, abstracted to None / True / False / handle / temp '
+                  f'name / destination / exception) vs corr_attrs aw_obj (o_init, entered, the leaf environment of __exit__ on '
+                  f'the path the real calls took): {len(abad)} disagreements')
+    if abad:
+        ck.tie_broken.append('correspondence AtomicWriter (history attributes): the attributes of the real object differ '
+                             'from the generated object facts')
+        ck.extra['history_attribute_disagreements'] = abad[:5]
 
 
 # =============================================================================================== two writers
@@ -1517,8 +1619,8 @@ def _data(s: dict) -> bytes:
 def eval_cases2(ck: Ck, cases: list[dict]) -> None:
     bad = []
     n = 0
-    for lo in range(0, len(cases), 300):
-        part = cases[lo:lo + 300]
+    for lo in range(0, len(cases), 450):
+        part = cases[lo:lo + 450]
         vals = ck.coq_eval(IMPORTS, [coq_list(c['coq'] for c in part)], name='aw_two', preamble=PRE)
         if vals is None:
             ck.obligation('correspondence:two-writers', False, 'model could not be evaluated')
